@@ -38,6 +38,8 @@ def run_case(case, want_trace=False):
         def handler(peer, t, src, f, raw):
             if f is None or f["code"] == 0 or (f["code"] >> 5) != 0:
                 return
+            if R.opts(f, R.O_URI_PATH) == ["bystander"]:
+                return  # another, never answered request of the same application to the same server
             nblocks = case["first"].get("blocks", 0)
             b2 = R.opt(f, R.O_BLOCK2)
             if nblocks and b2 is not None and b2[0] > 0:
@@ -103,6 +105,19 @@ def run_case(case, want_trace=False):
                 holder["consumer"] = net.loop.create_task(consume())
 
         net.at(1.0, start)
+        if case.get("bystander") is not None:
+            # a later request to the same server stays outstanding next to the observation (NON: it neither times out
+            # nor is retransmitted); a transport error must still end the observation
+            from aiocoap import Unreliable
+
+            def start_bystander():
+                m = Message(code=GET, transport_tuning=Unreliable)
+                m.opt.uri_path = ("bystander",)
+                m.remote = x.remote(p)
+                holder["bystander"] = log.start(x, m)
+
+            net.at(1.0 + case["bystander"], start_bystander)
+            labels.add("bystander-request")
         arrivals = []
 
         def after(d):
@@ -298,6 +313,8 @@ def _case(draw):
         # the fate list is consumed by whatever is transmitted next, so a drop could hit the block fetch; losing
         # that is C05's subject, here it would only make the first response fail legitimately
         case["fates"] = [f for f in case["fates"] if f[0] != "drop"]
+    if draw(st.integers(0, 3)) == 0:
+        case["bystander"] = draw(st.sampled_from([0.01, 0.3, 1.7]))  # (after the first response: the first two fates belong to request and first response)
     if mode.endswith("aiter"):
         case["consumer_delay"] = draw(st.sampled_from([0, 0, 0.3, 1.5]))
     return case
